@@ -80,7 +80,11 @@ class OFXHeaderBase:
         if not headermatch:
             raise OFXHeaderError(f"OFX header is malformed:\n{rawheader}")
         headerattrs = headermatch.groupdict()
-        headerattrs = {k.lower(): v for k, v in headerattrs.items()}
+        headerattrs = {
+            k.lower(): v
+            for k, v in headerattrs.items()
+            if k.lower() not in ("q1", "q2", "q3", "q4", "q5")
+        }
         header = cls(**headerattrs)
         return header, headermatch.end()
 
@@ -194,11 +198,11 @@ class OFXHeaderV2(OFXHeaderBase):
 
     regex = re.compile(
         r"""<\?OFX\s+
-                       OFXHEADER=\"(?P<ofxheader>\d+)\"\s+
-                       VERSION=\"(?P<version>\d+)\"\s+
-                       SECURITY=\"(?P<security>[\w]+)\"\s+
-                       OLDFILEUID=\"(?P<oldfileuid>[\w-]+)\"\s+
-                       NEWFILEUID=\"(?P<newfileuid>[\w-]+)\"\s*
+                       OFXHEADER=(?P<q1>[\"'])(?P<ofxheader>\d+)(?P=q1)\s+
+                       VERSION=(?P<q2>[\"'])(?P<version>\d+)(?P=q2)\s+
+                       SECURITY=(?P<q3>[\"'])(?P<security>[\w]+)(?P=q3)\s+
+                       OLDFILEUID=(?P<q4>[\"'])(?P<oldfileuid>[\w-]+)(?P=q4)\s+
+                       NEWFILEUID=(?P<q5>[\"'])(?P<newfileuid>[\w-]+)(?P=q5)\s*
                        \?>\s*""",
         re.VERBOSE,
     )
